@@ -195,12 +195,13 @@ def run(prop, tier, replay):
     mc_pool = cf.ThreadPoolExecutor(max_workers=3)
     mc_futs = []
     if replay is None:
-        plan = [(1, "l2", 2, 5), (3, "cosine", 1, 5), (2, "dot", 1, 5)] if quick else \
-               [(1, "l2", 3, 6), (2, "dot", 2, 6), (3, "cosine", 2, 6), (4, "l2", 2, 7)]
+        # (pool, metric, history steps, keys, reduced query universe)
+        plan = [(1, "l2", 2, 5, True), (3, "cosine", 1, 5, True), (2, "dot", 1, 5, True)] if quick else \
+               [(1, "l2", 3, 6, True), (2, "dot", 2, 6, False), (3, "cosine", 2, 6, False), (4, "l2", 2, 7, False)]
 
         def mc(p):
-            pool, metric, steps, maxkeys = p
-            cfg = CFG.format(maxkeys=maxkeys, steps=steps, pool=pool, metric=metric, wq="TRUE", small="TRUE" if quick else "FALSE", inv=LAWS)
+            pool, metric, steps, maxkeys, small = p
+            cfg = CFG.format(maxkeys=maxkeys, steps=steps, pool=pool, metric=metric, wq="TRUE", small="TRUE" if small else "FALSE", inv=LAWS)
             return p, vlib.tlc_mc(f"{prop}-mc-{pool}-{metric}", "VectorQuery", cfg, workers=4, timeout=1500 if quick else 3000, xmx="4g")
 
         mc_futs = [mc_pool.submit(mc, p) for p in plan]
@@ -215,7 +216,7 @@ def run(prop, tier, replay):
                     if r["coverage"].get(a, 0) == 0 and not (a == "N_Optimize" and p[2] < 2)]
             if zero:
                 raise vlib.ToolError(f"vacuous model run {p}: actions never taken {zero}")
-            mcs.append({"pool": p[0], "metric": p[1], "steps": p[2], "max_keys": p[3], "distinct": r.get("distinct"),
+            mcs.append({"pool": p[0], "metric": p[1], "steps": p[2], "max_keys": p[3], "reduced_query_universe": p[4], "distinct": r.get("distinct"),
                         "generated": r.get("generated"), "depth": r.get("depth"), "wall_s": r["wall_s"]})
     # 2. scenarios ---------------------------------------------------------------------------------
     gen_info = {}
@@ -233,7 +234,7 @@ def run(prop, tier, replay):
             raise vlib.ToolError("scenario generation produced nothing")
         useful = [h for h in hists if any(s["op"] == "index" for s in h)]
         plain = [h for h in hists if not any(s["op"] == "index" for s in h)]
-        nscn = (108 if quick else 1200)
+        nscn = (108 if quick else 800)
 
         def after_index(h, op):
             i = next((j for j, s in enumerate(h) if s["op"] == "index"), None)
